@@ -83,6 +83,7 @@ type scenario struct {
 	Shape string  `json:"shape"`
 	Nodes []mnode `json:"nodes"`
 	Mt    string  `json:"mt"`
+	Prior string  `json:"prior"` // what the destination of Zip holds beforehand: absent | empty | longer
 }
 
 // a measured entry
@@ -240,6 +241,7 @@ type rtEvent struct {
 	Backend string   `json:"backend"`
 	Shape   string   `json:"shape"`
 	Mt      string   `json:"mt"`
+	Prior   string   `json:"prior"`
 	Model   []string `json:"model"` // path|kind|size from the scenario (empty for fuzzed trees)
 	HasM    bool     `json:"hasModel"`
 	SrcK    []string `json:"srcK"` // measured source: path|kind
@@ -393,6 +395,20 @@ func roundTrip(id int, backend, scratch string, nodes []tnode, ev rtEvent) (rtEv
 	ev.SrcK, ev.SrcC, ev.SrcT = proj(before, rec.pk), proj(before, rec.pc), proj(truncated(before), rec.ptm)
 	ev.SrcS = proj(before, func(r rec) string { return fmt.Sprintf("%s|%s|%d", toToken(r.rel), r.kind, r.size) })
 	zipPath := filepath.Join(root, "out.zip")
+	switch ev.Prior {
+	case "empty":
+		if err := afero.WriteFile(base, zipPath, nil, 0o644); err != nil {
+			return ev, err
+		}
+	case "longer":
+		// an older archive of a bigger tree (incompressible content: the archive is longer than any the scenarios produce)
+		older := filepath.Join(root, "older")
+		materialise(base, older, []tnode{{rel: "plain", data: content("older", 5000000), mt: baseTime("even")}, {rel: "uni", dir: true, mt: baseTime("even")}})
+		if err := fs.Zip(older, zipPath); err != nil {
+			return ev, fmt.Errorf("harness: older archive: %w", err)
+		}
+		_ = base.RemoveAll(older)
+	}
 	ev.ZipErr = hk.Kind(fs.Zip(src, zipPath))
 	ev.SrcC2 = proj(dump(base, src), rec.pc)
 	// extraction, without and with limits
@@ -471,7 +487,7 @@ func replay(a *hk.Args) error {
 		}
 		sort.Strings(model)
 		for _, backend := range []string{"os", "mem"} {
-			ev, err := roundTrip(i+1, backend, a.Dir, append([]tnode{}, nodes...), rtEvent{Shape: sc.Shape, Mt: sc.Mt, Model: model, HasM: true})
+			ev, err := roundTrip(i+1, backend, a.Dir, append([]tnode{}, nodes...), rtEvent{Shape: sc.Shape, Mt: sc.Mt, Prior: sc.Prior, Model: model, HasM: true})
 			if err != nil {
 				return err
 			}
